@@ -171,6 +171,224 @@ theorem XInv.local' {s s' : State} (hs : XInv s) (t : Tid) (stk' : List Frame) (
   hs.local t stk' evs hthr hsub hw (fun p => by rw [hp]) hn hfr hh hev
     (by rw [hp]; exact hs.doneOut)
 
+theorem owned_cons_none {f : Frame} (stk : List Frame) (h : owns f = none) :
+    owned (f :: stk) = owned stk := by rw [owned_cons, h]
+
+theorem owned_cons_some {f : Frame} {p : Pid} (stk : List Frame) (h : owns f = some p) :
+    owned (f :: stk) = p :: owned stk := by rw [owned_cons, h]
+
+/-! ### the deferred release of markers when a stack is unwound -/
+
+/-- the key under which a frame still holds a `wip` entry -/
+def wkey : Frame → Option Key
+  | .exStart k _ _ => some k
+  | .exRun k _ => some k
+  | .exPub k _ _ => some k
+  | _ => none
+
+theorem releaseOwned_pend_other (s : State) : ∀ (stk : List Frame) (q : Pid), q ∉ owned stk →
+    (releaseOwned s stk).pend q = s.pend q
+  | [], _, _ => rfl
+  | f :: rest, q, h => by
+    have ih := releaseOwned_pend_other s rest q
+    cases f <;> simp only [releaseOwned]
+    case exStart k p path =>
+      rw [owned_cons_some _ rfl] at h; simp at h
+      rw [upd_other _ _ _ _ h.1]; exact ih h.2
+    case exRun k p =>
+      rw [owned_cons_some _ rfl] at h; simp at h
+      rw [upd_other _ _ _ _ h.1]; exact ih h.2
+    case exPub k p res =>
+      rw [owned_cons_some _ rfl] at h; simp at h
+      rw [upd_other _ _ _ _ h.1]; exact ih h.2
+    case exClose k p res =>
+      rw [owned_cons_some _ rfl] at h; simp at h
+      rw [upd_other _ _ _ _ h.1]; exact ih h.2
+    all_goals (rw [owned_cons_none _ rfl] at h; exact ih h)
+
+theorem releaseOwned_out_keep (s : State) : ∀ (stk : List Frame) (q : Pid),
+    (∀ f ∈ stk, XFrame s f) → (s.pend q).out ≠ none →
+    ((releaseOwned s stk).pend q).out = (s.pend q).out
+  | [], _, _, _ => rfl
+  | f :: rest, q, hx, hq => by
+    have ih := releaseOwned_out_keep s rest q (fun g hg => hx g (List.mem_cons_of_mem _ hg)) hq
+    have hf := hx f (by simp)
+    cases f <;> simp only [releaseOwned] <;> (try exact ih)
+    case exStart k p path =>
+      have : q ≠ p := by intro e; subst e; exact hq hf.2
+      rw [upd_other _ _ _ _ this]; exact ih
+    case exRun k p =>
+      have : q ≠ p := by intro e; subst e; exact hq hf.2
+      rw [upd_other _ _ _ _ this]; exact ih
+    case exPub k p res =>
+      have : q ≠ p := by intro e; subst e; exact hq hf.2
+      rw [upd_other _ _ _ _ this]; exact ih
+    case exClose k p res =>
+      simp only [upd_apply]
+      split
+      · next e => subst e; exact ih
+      · exact ih
+
+theorem releaseOwned_owned_closed (s : State) : ∀ (stk : List Frame) (q : Pid), q ∈ owned stk →
+    (∀ f ∈ stk, XFrame s f) →
+    ((releaseOwned s stk).pend q).done = true ∧ ((releaseOwned s stk).pend q).out ≠ none
+  | [], q, h, _ => by simp [owned] at h
+  | f :: rest, q, h, hx => by
+    have hxr : ∀ g ∈ rest, XFrame s g := fun g hg => hx g (List.mem_cons_of_mem _ hg)
+    have ih := fun hq => releaseOwned_owned_closed s rest q hq hxr
+    have hf := hx f (by simp)
+    cases f <;> simp only [releaseOwned]
+    case exStart k p path =>
+      rw [owned_cons_some _ rfl] at h
+      by_cases e : q = p
+      · subst e; simp
+      · rw [upd_other _ _ _ _ e]; exact ih (by simpa [e] using h)
+    case exRun k p =>
+      rw [owned_cons_some _ rfl] at h
+      by_cases e : q = p
+      · subst e; simp
+      · rw [upd_other _ _ _ _ e]; exact ih (by simpa [e] using h)
+    case exPub k p res =>
+      rw [owned_cons_some _ rfl] at h
+      by_cases e : q = p
+      · subst e; simp
+      · rw [upd_other _ _ _ _ e]; exact ih (by simpa [e] using h)
+    case exClose k p res =>
+      rw [owned_cons_some _ rfl] at h
+      by_cases e : q = p
+      · subst e
+        simp only [upd_same]
+        have hout : (s.pend q).out = some res := hf
+        refine ⟨trivial, ?_⟩
+        rw [releaseOwned_out_keep s rest q hxr (by rw [hout]; simp), hout]; simp
+      · rw [upd_other _ _ _ _ e]; exact ih (by simpa [e] using h)
+    all_goals (rw [owned_cons_none _ rfl] at h; exact ih h)
+
+theorem releaseOwned_wip_cleared (s : State) : ∀ (stk : List Frame) (f : Frame) (k : Key),
+    f ∈ stk → wkey f = some k → (releaseOwned s stk).wip k = none
+  | [], _, _, h, _ => by simp at h
+  | g :: rest, f, k, h, hk => by
+    have ih : f ∈ rest → (releaseOwned s rest).wip k = none :=
+      fun hf => releaseOwned_wip_cleared s rest f k hf hk
+    rcases List.mem_cons.mp h with e | e
+    · subst e
+      cases f <;> simp [wkey] at hk <;> subst hk <;> simp [releaseOwned]
+    · cases g <;> simp only [releaseOwned] <;> (try exact ih e)
+      all_goals
+        simp only [upd_apply]
+        split
+        · rfl
+        · exact ih e
+
+theorem releaseOwned_wip_other (s : State) : ∀ (stk : List Frame) (k : Key),
+    (∀ f ∈ stk, wkey f ≠ some k) → (releaseOwned s stk).wip k = s.wip k
+  | [], _, _ => rfl
+  | g :: rest, k, h => by
+    have ih := releaseOwned_wip_other s rest k (fun f hf => h f (List.mem_cons_of_mem _ hf))
+    have hg := h g (by simp)
+    cases g <;> simp only [releaseOwned] <;> (try exact ih)
+    all_goals
+      simp only [wkey] at hg
+      rw [upd_other _ _ _ _ (fun e => hg (by rw [e]))]; exact ih
+
+/-- a panic unwinds the stack of `t`: every pending owned on it is closed with an outcome, its
+`wip` entry is gone, nothing else changes -/
+theorem XInv.crash {s : State} (hs : XInv s) (t : Tid) (ev : Event) (hev : ∀ s', XEv s' ev) :
+    XInv (CONC.crash s t ev) := by
+  have hxt : ∀ f ∈ s.thr t, XFrame s f := hs.frames t
+  have hown : ∀ t', owned ((CONC.crash s t ev).thr t') = if t' = t then [] else owned (s.thr t') := by
+    intro t'; simp only [crash_thr, upd_apply]; split
+    · simp [owned, owns]
+    · rfl
+  -- what survives for a pending which is not owned by the unwound stack
+  have hother : ∀ q, q ∉ owned (s.thr t) → (CONC.crash s t ev).pend q = s.pend q := by
+    intro q hq; simp only [crash_pend]; exact releaseOwned_pend_other s _ q hq
+  have hwip : ∀ t' f k p, t' ≠ t → f ∈ s.thr t' → wkey f = some k → owns f = some p → s.wip k = some p →
+      (CONC.crash s t ev).wip k = some p := by
+    intro t' f k p hne hf hk ho hw
+    simp only [crash_wip]
+    rw [releaseOwned_wip_other, hw]
+    intro g hg hgk
+    -- g would hold the same wip entry, i.e. the same pending, in another thread
+    have hxg := hxt g hg
+    have hpg : owns g = some p := by
+      cases g <;> simp [wkey] at hgk <;> subst hgk
+      · have := hxg.1; rw [hw] at this; cases this; rfl
+      · have := hxg.1; rw [hw] at this; cases this; rfl
+      · have := hxg.1; rw [hw] at this; cases this; rfl
+    exact hne (hs.disj t' t p (mem_owned hf ho) (mem_owned hg hpg))
+  refine ⟨?_, ?_, ?_, ?_, ?_, ?_, ?_⟩
+  · intro t'; rw [hown]; split
+    · exact List.nodup_nil
+    · exact hs.nodup t'
+  · intro t1 t2 p h1 h2
+    rw [hown] at h1 h2
+    split at h1
+    · simp at h1
+    · split at h2
+      · simp at h2
+      · exact hs.disj t1 t2 p h1 h2
+  · intro t' p h
+    rw [hown] at h
+    split at h
+    · simp at h
+    · simp only [crash_npend]; exact hs.bound t' p h
+  · intro k p h
+    simp only [crash_wip] at h
+    simp only [crash_npend]
+    exact hs.wipb k p (releaseOwned_wip_sub _ _ _ _ h)
+  · intro t' f hf
+    simp only [crash_thr, upd_apply] at hf
+    split at hf
+    · simp at hf; subst hf; trivial
+    · next hne =>
+      have hx := hs.frames t' f hf
+      have hnot : ∀ p, owns f = some p → p ∉ owned (s.thr t) :=
+        fun p ho hm => hne (hs.disj t' t p (mem_owned hf ho) hm)
+      cases f with
+      | exStart k p path =>
+        exact ⟨hwip t' _ k p hne hf rfl rfl hx.1, by rw [hother p (hnot p rfl)]; exact hx.2⟩
+      | exRun k p =>
+        exact ⟨hwip t' _ k p hne hf rfl rfl hx.1, by rw [hother p (hnot p rfl)]; exact hx.2⟩
+      | exPub k p res =>
+        exact ⟨hwip t' _ k p hne hf rfl rfl hx.1, by rw [hother p (hnot p rfl)]; exact hx.2⟩
+      | exClose k p res =>
+        show ((CONC.crash s t ev).pend p).out = some res
+        rw [hother p (hnot p rfl)]; exact hx
+      | exDone k p res =>
+        refine ⟨?_, by simp only [crash_npend]; exact hx.2⟩
+        simp only [crash_pend]
+        rw [releaseOwned_out_keep s _ p hxt (by rw [hx.1]; simp)]; exact hx.1
+      | exWait k p => simp only [XFrame, crash_npend]; exact hx
+      | decGet _ _ _ _ => trivial
+      | decFn _ _ _ => trivial
+      | exFn _ _ => trivial
+      | dead => trivial
+  · intro e he
+    simp only [crash_hist] at he
+    rcases List.mem_cons.mp he with h | h
+    · subst h; exact hev _
+    · have hx := hs.hist e h
+      cases e with
+      | exc t0 o tp res q =>
+        cases q with
+        | none => trivial
+        | some q =>
+          refine ⟨by simp only [crash_npend]; exact hx.1, fun hn => ?_⟩
+          have := hx.2 hn
+          simp only [crash_pend]
+          rw [releaseOwned_out_keep s _ q hxt (by rw [this]; simp)]; exact this
+      | dec _ _ _ _ => trivial
+      | pair _ _ _ _ _ _ _ => trivial
+      | run _ _ _ _ _ => trivial
+      | fnPanic _ => trivial
+  · intro q hq
+    simp only [crash_pend] at hq ⊢
+    by_cases hm : q ∈ owned (s.thr t)
+    · exact (releaseOwned_owned_closed s _ q hm hxt).2
+    · rw [releaseOwned_pend_other s _ q hm] at hq ⊢
+      exact hs.doneOut q hq
+
 theorem XInv.init : XInv State.init := by
   refine ⟨?_, ?_, ?_, ?_, ?_, ?_, ?_⟩
   · intro t; simp [State.init, owned]
